@@ -35,6 +35,7 @@ def plan(tier, seed):
     units = [{"kind": "decls", "shard": i, "of": n, "pairwise": tier == "thorough"} for i in range(n)]
     units.append({"kind": "suite"})
     units.append({"kind": "api_removers", "n": 300 if tier == "quick" else 6000})
+    units.append({"kind": "switches"})
     if ONLINE:
         # mixed-profile histories (every op kind) and 'sat' histories (XML mutators next to schema-permitted siblings python-pptx
         # never writes: ops.op_saturate / ops.sat_select), both judged by monitor M-INS only
@@ -331,11 +332,87 @@ def api_removers(unit, seed, acc):
         sp._element.getparent().remove(sp._element)
 
 
+def api_switches(seed, acc):
+    """'never more than one' at the level of the boolean switches of the API: every has_* / show-like switch assigned the value
+    it already has (True twice, False twice, True-False-True) on every chart family - the element it stands for must occur
+    at most once in its parent afterwards, and the part must validate as well as before."""
+    import pptx
+    from lxml import etree
+    from pptx.chart.data import CategoryChartData, XyChartData
+    from pptx.enum.chart import XL_CHART_TYPE
+    from vlib import xsdkit
+
+    def cat():
+        d = CategoryChartData()
+        d.categories = ["a", "b"]
+        d.add_series("s", (1, 2))
+        return d
+
+    def xy():
+        d = XyChartData()
+        s_ = d.add_series("s")
+        s_.add_data_point(1, 2)
+        return d
+
+    switches = [
+        ("Chart.has_legend", lambda ch: ch, "has_legend"),
+        ("Chart.has_title", lambda ch: ch, "has_title"),
+        ("Plot.has_data_labels", lambda ch: ch.plots[0], "has_data_labels"),
+        ("Plot.vary_by_categories", lambda ch: ch.plots[0], "vary_by_categories"),
+        ("ValueAxis.has_major_gridlines", lambda ch: ch.value_axis, "has_major_gridlines"),
+        ("ValueAxis.has_minor_gridlines", lambda ch: ch.value_axis, "has_minor_gridlines"),
+        ("ValueAxis.has_title", lambda ch: ch.value_axis, "has_title"),
+        ("CategoryAxis.has_title", lambda ch: ch.category_axis, "has_title"),
+        ("CategoryAxis.has_major_gridlines", lambda ch: ch.category_axis, "has_major_gridlines"),
+        ("ValueAxis.visible", lambda ch: ch.value_axis, "visible"),
+        ("Legend.include_in_layout", lambda ch: (setattr(ch, "has_legend", True), ch.legend)[1], "include_in_layout"),
+        ("DataLabel.has_text_frame", lambda ch: ch.plots[0].series[0].points[0].data_label, "has_text_frame"),
+        ("ChartTitle.has_text_frame", lambda ch: (setattr(ch, "has_title", True), ch.chart_title)[1], "has_text_frame"),
+    ]
+    charts = [("COLUMN_CLUSTERED", cat), ("LINE", cat), ("PIE", cat), ("XY_SCATTER", xy), ("AREA", cat), ("RADAR", cat)]
+    for ctype, mk in charts:
+        for label, get, attr in switches:
+            for seq in ((True, True), (False, False), (True, False, True), (False, True, True)):
+                prs = pptx.Presentation()
+                s = prs.slides.add_slide(prs.slide_layouts[6])
+                ch = s.shapes.add_chart(getattr(XL_CHART_TYPE, ctype), 0, 0, 4000000, 3000000, mk()).chart
+                w = {"switch": label, "chart": ctype, "seq": list(seq), "seed": seed}
+                try:
+                    obj = get(ch)
+                except Exception:  # noqa  (a pie has no axes)
+                    continue
+                before, _ = xsdkit.validate_part(ch.part.blob)
+                acc.case(desc=w, nontrivial=True, cls="api-switch")
+                acc.hit("switch:" + label)
+                try:
+                    for v in seq:
+                        setattr(obj, attr, v)
+                except (TypeError, ValueError, NotImplementedError, AttributeError):
+                    acc.count("api_switches_not_applicable_here")
+                    continue
+                acc.count("api_switch_sequences")
+                root = ch._chartSpace
+                for el in root.iter():
+                    if not isinstance(el.tag, str):
+                        continue
+                    tags = [c.tag for c in el if isinstance(c.tag, str)]
+                    for t in set(tags):
+                        local = etree.QName(t).localname
+                        if tags.count(t) > 1 and local in ("legend", "title", "dLbls", "majorGridlines", "minorGridlines", "varyColors", "delete", "layout", "tx", "rich", "autoTitleDeleted", "overlay"):
+                            acc.violation("switch-leaves-duplicate:%s" % local, "%s = %s on a %s chart leaves %d <c:%s> in <c:%s>" % (label, list(seq), ctype, tags.count(t), local, etree.QName(el).localname), w)
+                after, _ = xsdkit.validate_part(ch.part.blob)
+                if before is not None and after is not None:
+                    for m in xsdkit.new_errors(before, after):
+                        acc.violation("switch-leaves-invalid:%s" % label, "%s = %s on a %s chart: %s" % (label, list(seq), ctype, str(m)[:200]), w)
+
+
 def run_unit(unit, tier, seed, acc):
     from vlib import introspect
 
     if unit.get("kind") == "api_removers":
         return api_removers(unit, seed, acc)
+    if unit.get("kind") == "switches":
+        return api_switches(seed, acc)
 
     if unit.get("kind") == "suite":  # the repository's own tests as one more workload for this property's monitor
         from vlib import suite
@@ -374,6 +451,10 @@ def replay(w, acc):
         return suite.replay_suite(w, acc, ID)
     if "api_remover" in w:
         return api_removers({"n": w["i"] + 1}, w["seed"], acc)
+    if "switch" in w:
+        api_switches(w.get("seed", 0), acc)
+        acc.violations[:] = [v for v in acc.violations if v["witness"].get("switch") == w["switch"]]
+        return print([(v["key"], v["what"][:300]) for v in acc.violations])
     if "profile" in w:
         from vlib import histories
 
